@@ -96,7 +96,7 @@ RULE = ("harness/internal/crash/hist.go: 1-3 buckets (fixed 1Min/1H/4H/1D, varia
         "1-5 rows per bucket and request drawn from 12 instants over two years so that fixed slots and variable intervals "
         "repeat (continuation writes), multi-bucket requests, optional checkpoints/rotations; class daily-jan1 and "
         "requests unsorted across years (the fixed class cross-year-unsorted) generated on purpose in a quarter of the histories.  One case = one history; EVERY crash "
-        "prefix of its system-call trace is explored (<=150 per history in quick).  distinct = distinct history; "
+        "prefix of its system-call trace is explored (a stratified sample of <=100 per history in quick: every boundary next to a WAL record, primary write, index/data half or checkpoint first; all of them in thorough).  distinct = distinct history; "
         "non-trivial = more than 20 recorded system calls.")
 
 
